@@ -104,6 +104,9 @@ def _arc_set(st, oid, **kw):
 def m_arc_clone(e, st, fr, t, args):
     a = deref_arg(e, st, args[0])
     if not is_h(a, 'Arc'):
+        import os
+        if os.environ.get('MIRSE_DEBUG'):
+            print('DEBUG arc_clone arg', args[0], '->', a, 'in', fr.fn.name, t.text[:120])
         return NotImplemented
     inner = arc_inner(st, a)
     if inner.extra['strong'] <= 0:
@@ -232,8 +235,7 @@ DROP_MODELS = {}
 def m_mpsc_channel(e, st, fr, t, args):
     buf = e.concrete_int(st, args[0])
     if buf is None:
-        buf_expr = e.as_int_expr(args[0])
-        raise Unsupported("symbolic mpsc buffer: the scenario must fix the capacity")
+        buf = e.as_int_expr(args[0])
     oid = mobj(st, 'chan', bounded=True, buffer=buf, queue=(), open=True, senders=1, parked=(), rx_alive=True)
     st.event('chan_new', oid, 'bounded', buf)
     tx = handle('mpsc::Sender', oid, sid=_new_sender_slot(st, oid))
@@ -304,26 +306,59 @@ def chan_poll_unparked(st, s):
     return True
 
 
+def decide(e, st, cond):
+    """cond: python bool or z3 Bool. returns [(state, bool)] (forks decided by the solver)"""
+    if isinstance(cond, bool):
+        return [(st, cond)]
+    c = z3.simplify(cond)
+    if z3.is_true(c):
+        return [(st, True)]
+    if z3.is_false(c):
+        return [(st, False)]
+    out = []
+    t = e.feasible(st, c)
+    f = e.feasible(st, z3.Not(c))
+    if t and f:
+        s2 = st.clone()
+        s2.pc.append(z3.Not(c))
+        s2.choices.append((str(c), False))
+        st.pc.append(c)
+        st.choices.append((str(c), True))
+        return [(st, True), (s2, False)]
+    if t:
+        st.pc.append(c)
+        return [(st, True)]
+    if f:
+        st.pc.append(z3.Not(c))
+        return [(st, False)]
+    return []
+
+
 def chan_try_send(e, st, s, msg):
-    """futures-channel BoundedSenderInner::try_send / UnboundedSender::do_send_nb.  returns None (ok) or error kind"""
+    """futures-channel BoundedSenderInner::try_send / UnboundedSender::do_send_nb.
+    returns [(state, None | error kind)] - the capacity may be symbolic (decided by z3)"""
     c = mget(st, s.extra['oid'])
     if s.name == 'mpsc::Sender':
         if not chan_poll_unparked(st, s):
-            return 'full'
+            return [(st, 'full')]
         c = mget(st, s.extra['oid'])
         if not c['open']:
-            return 'disconnected'
+            return [(st, 'disconnected')]
         n = len(c['queue']) + 1
-        parked = c['parked']
-        if n > c['buffer']:
-            mset(st, s.extra['sid'], parked=True, maybe_parked=True)
-            parked = parked + (s.extra['sid'],)
-        mset(st, s.extra['oid'], queue=c['queue'] + (msg,), parked=parked)
-        return None
+        out = []
+        for s2, over in decide(e, st, n > c['buffer']):
+            c2 = mget(s2, s.extra['oid'])
+            parked = c2['parked']
+            if over:
+                mset(s2, s.extra['sid'], parked=True, maybe_parked=True)
+                parked = parked + (s.extra['sid'],)
+            mset(s2, s.extra['oid'], queue=c2['queue'] + (msg,), parked=parked)
+            out.append((s2, None))
+        return out
     if not c['open']:
-        return 'disconnected'
+        return [(st, 'disconnected')]
     mset(st, s.extra['oid'], queue=c['queue'] + (msg,))
-    return None
+    return [(st, None)]
 
 
 def m_start_send(e, st, fr, t, args):
@@ -331,12 +366,19 @@ def m_start_send(e, st, fr, t, args):
     s = deref_arg(e, st, sref)
     if not (is_h(s, 'mpsc::Sender') or is_h(s, 'mpsc::UnboundedSender')):
         return NotImplemented
-    r = chan_try_send(e, st, s, args[1])
-    st.event('chan_push', s.extra['oid'], 'force', r or 'ok', _payload_desc(args[1]))
-    if r is None:
-        return ok(UNIT)
-    e.dropper.drop(st, args[1], 'start_send failed')
-    return err(_send_error(r))
+    outs = []
+    for s2, r in chan_try_send(e, st, s, args[1]):
+        s2.event('chan_push', s.extra['oid'], 'force', r or 'ok', _payload_desc(args[1]))
+        if r is None:
+            val = ok(UNIT)
+        else:
+            e.dropper.drop(s2, args[1], 'start_send failed')
+            val = err(_send_error(r))
+        f2 = s2.frames[-1]
+        e.write_place(s2, f2, t.dest, val)
+        f2.bb = t.target
+        outs.append(s2)
+    return outs
 
 
 def m_unbounded_len(e, st, fr, t, args):
@@ -382,21 +424,28 @@ def poll_sink_send(e, st, ref, fut):
                 e.dropper.drop(st, msg, 'send on closed channel')
                 st.event('chan_push', s.extra['oid'], 'wait', 'disconnected', _payload_desc(msg))
                 return [(st, ready(err(_send_error('disconnected'))))]
-        r = chan_try_send(e, st, s, msg)
-        st.event('chan_push', s.extra['oid'], 'wait', r or 'ok', _payload_desc(msg))
-        _store(e, st, ref, VAgg(name='sink::Send', fields={('f', 0): txref, ('f', 1): NONE}, extra={}))
-        if r is not None:
-            e.dropper.drop(st, msg, 'send failed')
-            return [(st, ready(err(_send_error(r))))]
-    # flush
+        res = []
+        for s2, r in chan_try_send(e, st, s, msg):
+            s2.event('chan_push', s.extra['oid'], 'wait', r or 'ok', _payload_desc(msg))
+            _store(e, s2, ref, VAgg(name='sink::Send', fields={('f', 0): txref, ('f', 1): NONE}, extra={}))
+            if r is not None:
+                e.dropper.drop(s2, msg, 'send failed')
+                res.append((s2, ready(err(_send_error(r)))))
+            else:
+                res.append((s2, _sink_flush(e, s2, s)))
+        return res
+    return [(st, _sink_flush(e, st, s))]
+
+
+def _sink_flush(e, st, s):
     if s.name == 'mpsc::Sender':
         c = mget(st, s.extra['oid'])
         if not c['open']:
-            return [(st, ready(ok(UNIT)))]        # disconnected counts as flushed
+            return ready(ok(UNIT))        # disconnected counts as flushed
         if not chan_poll_unparked(st, s):
             block_on(st, s.extra['sid'])
-            return [(st, PENDING)]
-    return [(st, ready(ok(UNIT)))]
+            return PENDING
+    return ready(ok(UNIT))
 
 
 def m_rx_poll_next(e, st, fr, t, args):
@@ -730,10 +779,26 @@ def builtin_fn_item(e, st, text, args):
 
 
 # =========================================================================== install
+def m_int_max(e, st, fr, t, args):
+    a, b = e.as_int_expr(args[0]), e.as_int_expr(args[1])
+    if isinstance(a, int) and isinstance(b, int):
+        return VScalar(max(a, b))
+    return VScalar(z3.If(a >= b, a, b))
+
+
+def m_int_min(e, st, fr, t, args):
+    a, b = e.as_int_expr(args[0]), e.as_int_expr(args[1])
+    if isinstance(a, int) and isinstance(b, int):
+        return VScalar(min(a, b))
+    return VScalar(z3.If(a <= b, a, b))
+
+
 def install(eng: Engine, resolver):
     eng.dropper = Dropper(eng, resolver)
     M = eng.models
     add = lambda rx, h: M.append((R(rx), h))
+    add(r'^<usize as Ord>::max$|^std::cmp::max::<usize>$|^usize::max$', m_int_max)
+    add(r'^<usize as Ord>::min$|^std::cmp::min::<usize>$|^usize::min$', m_int_min)
     add(r'^Arc::<.*>::new$', m_arc_new)
     add(r'^<Arc<.*> as Clone>::clone$', m_arc_clone)
     add(r'^<Arc<.*> as ToOwned>::to_owned$', m_arc_clone)
@@ -765,6 +830,7 @@ def install(eng: Engine, resolver):
     add(r'^Vec::<.*>::push$', m_vec_push)
     add(r'^Vec::<.*>::drain::<RangeFull>$', m_vec_drain_all)
     add(r'^<std::vec::Drain<.*> as Iterator>::next$', m_veciter_next)
+    add(r'^<std::vec::Drain<.*> as IntoIterator>::into_iter$', lambda e, st, fr, t, a: a[0])
     add(r'^Option::<.*>::map::<', m_option_map)
     add(r'^Option::<.*>::and_then::<', m_option_and_then)
     add(r'^Option::<.*>::zip::<', m_option_zip)
